@@ -21,6 +21,7 @@ type vCase struct {
 	steps  int    // reference step budget (default 400)
 	consts int    // size of the alphabet for k-atoms (default 3: a, b, c)
 	static bool   // load through Compile (static procedures) instead of assertz
+	unordered bool // answers are compared as multisets (group order of bagof/setof is not constrained)
 }
 
 type vParsed struct {
@@ -260,10 +261,35 @@ func vCompareRuns(tag string, impl vImplRun, ref rRun, kfid string, region bool)
 	}
 	verifyKF(same, tag+": number of answers or final status differs from the reference", kfid, region)
 	okAll := true
-	for i := range impl.answers {
-		ab, ba := &rRename{}, &rRename{}
-		for j := range impl.answers[i] {
-			okAll = bAnd(okAll, vVariantV(impl.answers[i][j], ref.answers[i][j], ab, ba))
+	if vUnordered && ref.status == "exhausted" {
+		// greedy matching; every row comparison is decided on this path, equal rows are interchangeable
+		used := make([]bool, len(ref.answers))
+		for i := range impl.answers {
+			found := false
+			for j := range ref.answers {
+				if used[j] {
+					continue
+				}
+				ab, ba := &rRename{}, &rRename{}
+				eq := true
+				for c := range impl.answers[i] {
+					eq = bAnd(eq, vVariantV(impl.answers[i][c], ref.answers[j][c], ab, ba))
+				}
+				if eq {
+					used[j], found = true, true
+					break
+				}
+			}
+			if !found {
+				okAll = false
+			}
+		}
+	} else {
+		for i := range impl.answers {
+			ab, ba := &rRename{}, &rRename{}
+			for j := range impl.answers[i] {
+				okAll = bAnd(okAll, vVariantV(impl.answers[i][j], ref.answers[i][j], ab, ba))
+			}
 		}
 	}
 	verifyKF(okAll, tag+": an answer differs from the reference", kfid, region)
@@ -319,8 +345,13 @@ func vRunCase(vm *VM, c vCase, kfid string, region bool) {
 	for i, pv := range qvars {
 		vars[i] = pv.Variable
 	}
+	vUnordered = c.unordered
 	vRunTerms(vm, c.name, clauses, q, vars, c.max, c.steps, kfid, region)
+	vUnordered = false
 }
+
+// vUnordered: compare answer rows as multisets (set by vRunCase for cases whose answer order is unconstrained).
+var vUnordered bool
 
 // vRunTerms: clauses are asserted with the real assertz/1 and added to the reference database; the query is run
 // on both and the runs are compared.
